@@ -22,12 +22,29 @@ pure translation, identity.
 Histories: the result of a fit must not depend on earlier fits. Every case is evaluated from a freshly reloaded
 `shelxfile.fit.quatfit` (so a replay of one case sees exactly the state the run saw) and carries its own `prelude`:
 0..3 earlier calls of qtrfit()/fit_fragment() with fewer / more / equally many points, whose results are discarded.
-  seq    the module stays loaded over a whole history of 2..6 calls (a replay carries the whole history): the SAME
-         fragment and subset - the caller's very list objects, as in `for site in sites: fit_fragment(frag, src, site)` -
-         fitted again onto the same and onto different targets, the same fragment with another subset, other fragments
-         and plain qtrfit() calls in between, qtrfit() repeated on the same lists. Every step is judged like a frag / fit
-         case (its result must not depend on what was fitted before), and fit_fragment()/qtrfit() must leave the
-         caller's lists as they were (otherwise the caller's next fit of that fragment starts from other coordinates).
+  seq    the module stays loaded over a whole history of 2..8 calls (a replay carries the whole history) and the CALLER'S
+         LIST OBJECTS live through it (`World`): one list object per fragment / source list / target list, and in mode
+         `aliased` the source list holds the fragment's own row objects (`source_atoms = [fragment_atoms[0], ...]`, the
+         library's own example). Steps: the same call again; the same fragment + subset onto a new target list / onto the
+         same target list with new numbers written into it; the fragment's coordinates CHANGED IN PLACE (translated,
+         rotated, one fitted / one other atom moved, another unit of length, two fitted atoms exchanged) and fitted again
+         with the source list kept or built again; another selection of atoms in a new list / put into the source list
+         the caller holds; other fragments; qtrfit() on the same lists, repeated, and after their numbers were changed in
+         place. Every step is judged like a frag / fit case on the numbers the lists hold at that moment (its result must
+         not depend on what was fitted before nor on which objects carry the numbers), fit_fragment()/qtrfit() must leave
+         the caller's lists as they were, and the whole history is run through the heap model `runH` (fit_fragment
+         statement by statement on rows shared and written in place; theorems fitFragmentH_eq / _frame,
+         history_reads_current: = fitFragment of the current numbers) and compared step by step.
+  The frag stream builds its arguments the same three ways (`alias`: copies / source rows = fragment rows / in addition
+  the target list IS the source list where both hold the same numbers).
+Systematic part (first, identical in both tiers — the quick tier reaches every class by construction):
+  (1) 7 idealised polyhedra x the 24 rotations of the cube as exact signed permutations (zero / exactly equal diagonal
+      elements and exactly vanishing off-diagonal elements of the form: q == 0, equal eigenvalues, all-zero diagonal),
+      some in other units;  (2) the unit of length decade by decade 1e-10 .. 1e+6, fit and frag, exact and noisy
+      (theorems qtrfit_scale_invariant, fit_fragment_unit_free);  (3) rotation angles 1e-1 .. 1e-18 and noise 1e-16 .. 1e-6;
+  (3b) idealised polyhedra with targets off by 1e-17 .. 1e-13 (negligible non-zero off-diagonal elements in the first
+      sweep);  (4) fit -> change in place -> fit for every kind of change x source list kept / rebuilt x aliased / pooled
+      rows, target / selection / qtrfit arguments changed in place, plain repetitions in all three object modes.
 Only what the property states is observed (coordinates, matrix, RMSD; the sweep counter is not).
 """
 import copy
@@ -535,6 +552,32 @@ def eval_frag(ctx, case, obs, mod, prefix='C20|frag', pcase=None, stream='frag',
         ctx.fail(sig0 + '|model-rms', f'fit_fragment RMSD {obs["rms"]!r} differs from the model `fitFragment` {m["rms"]!r}', payload, kind='correspondence')
 
 
+def eval_hist(ctx, case, outs, hist):
+    """the whole history against the heap model (`runH`: fit_fragment statement by statement on rows shared and changed in
+    place as the caller shares and changes them); `specH` = fitFragment of the current numbers (theorem
+    history_reads_current: the two are equal)"""
+    if hist['model'] != hist['spec']:
+        raise core.LeanError(f'C20: runH and specH differ on a history (theorem history_reads_current): {hist}')
+    k = 0
+    for si, (st, o) in enumerate(zip(case['steps'], outs)):
+        if st['kind'] != 'frag':
+            continue
+        m, k = hist['model'][k], k + 1
+        if 'raise' in o:
+            continue
+        pcase = dict(case, steps=case['steps'][:si + 1])
+        src = [st['frag'][i] for i in st['idx']]
+        mag = max(abs(c) for p in st['frag'] + st['tgt'] for c in p)
+        size = max(math.sqrt(ssd(src, [cen(src)] * len(src)) / len(src)), 1e-6 * mag)
+        payload = dict(case=pcase, stream='seq', actual=o, model=m)
+        if m is None:
+            ctx.fail(f'C20|seq|{st["how"]}|heap-model-raises', 'the model of the history raises where fit_fragment returns', payload, kind='correspondence')
+        elif st['noise'] < 1.0 and any(not core.close(a, b, 1e-7 * size, 0) for p, t in zip(o['coords'], m['coords']) for a, b in zip(p, t)) \
+                or not core.close(o['rms'], m['rms'], 1e-8 * size, 1e-8):
+            ctx.fail(f'C20|seq|{st["how"]}|heap-model', f'step {si} ({st["how"]}, objects {seq_mode(case)}): fit_fragment differs from the model of the '
+                     f'same history on the caller\'s objects (`runH`): RMSD {o["rms"]!r} vs {m["rms"]!r}', payload, kind='correspondence')
+
+
 def triple(pts, a, b, c, d):
     u = [pts[b][i] - pts[a][i] for i in range(3)]
     v = [pts[c][i] - pts[a][i] for i in range(3)]
@@ -690,6 +733,28 @@ class World:
 
     def __init__(self, mode):
         self.mode, self.pool = mode, {}
+        # the same history as the heap model sees it (driver op `hist`): every row object the caller ever hands to
+        # fit_fragment() gets an address; `rows` = the numbers it held when first seen, `steps` = the caller's assignments
+        # (found by comparing with what the row held at the previous fit) and the fits as lists of addresses
+        self.keep, self.addr, self.rows, self.cur, self.steps = [], {}, [], [], []
+
+    def trace_fit(self, frag, src, tgt):
+        step = {}
+        for name, lst in (('frag', frag), ('src', src), ('tgt', tgt)):
+            addrs = []
+            for row in lst:
+                a = self.addr.get(id(row))
+                if a is None:
+                    a = self.addr[id(row)] = len(self.keep)
+                    self.keep.append(row)      # kept alive: an address is never given to another object
+                    self.rows.append([float(x) for x in row])
+                    self.cur.append(list(row))
+                elif self.cur[a] != list(row):
+                    self.steps.append(dict(w=a, p=[float(x) for x in row]))
+                    self.cur[a] = list(row)
+                addrs.append(a)
+            step[name] = addrs
+        self.steps.append(step)
 
     def obj(self, label, coords):
         cur = self.pool.get(label)
@@ -739,6 +804,7 @@ def impl_seq(case):
                 tgt = world.obj(('t', st.get('tid') or repr(st['tgt'])), st['tgt'])
                 src = world.source(('s', st.get('sid') or repr([st['frag'], st['idx']])), frag, st)
                 before = (copy.deepcopy(frag), copy.deepcopy(src), copy.deepcopy(tgt))
+                world.trace_fit(frag, src, tgt)
                 coords, r = Q.fit_fragment(frag, src, tgt)
                 o['mutated'] = [nm for nm, a, b in (('fragment_atoms', frag, before[0]), ('source_atoms', src, before[1]),
                                                     ('target_atoms', tgt, before[2])) if differs(a, b)]
@@ -746,7 +812,7 @@ def impl_seq(case):
         except Exception as e:  # noqa
             o['raise'] = ename(e)
         outs.append(o)
-    return outs
+    return outs, dict(p='C20', op='hist', rows=world.rows, steps=world.steps)
 
 
 def differs(a, b):
@@ -782,9 +848,9 @@ def evaluate(ctx, cases, stream=None):
             impls.append(impl_frag(case))
             units = [(0, u) for u in frag_requests(case)]
         else:
-            outs = impl_seq(case)
+            outs, hist = impl_seq(case)
             impls.append(outs)
-            units = []
+            units = [(-1, ('hist', hist))]
             for si, (st, o) in enumerate(zip(case['steps'], outs)):
                 units += [(si, u) for u in (fit_requests(st, o) if st['kind'] == 'fit' else frag_requests(st))]
         for si, (what, rq) in units:
@@ -803,6 +869,7 @@ def evaluate(ctx, cases, stream=None):
             eval_frag(ctx, case, impls[ci], per[ci, 0]['frag'])
         else:
             ctx.stream('seq')
+            eval_hist(ctx, case, impls[ci], per[ci, -1]['hist'])
             for si, (st, o) in enumerate(zip(case['steps'], impls[ci])):
                 # a failing step is replayed with the history up to it
                 pcase = dict(case, steps=case['steps'][:si + 1])
@@ -881,6 +948,14 @@ def systematic_cases(rng):
     for e in (16, 14, 12, 10, 8, 6):
         cases.append(make_fit_case(rng, prelude=False, scale=1.0, noise=10.0 ** -e, shape='box',
                                    rot=(rng.choice([[1.0, 0.0, 0.0, 0.0], unit_quat(rng)]), 'random')))
+    # (3b) idealised polyhedra whose target atoms are off their ideal places by the rounding unit and a little more: the
+    #     off-diagonal elements of the form are then not zero but negligible against the differences of the diagonal
+    #     already in the first sweep (the `b / dma` branch of the rotation angle, `fabs(b) > 0` with a tiny b)
+    for name, pts in ideal_sets():
+        for perm, sg in [group[0]] + rng.sample(group, 2):
+            for e in (17, 15, 13):
+                tgt = [[sg[i] * p[perm[i]] + rng.choice([-1.0, 1.0]) * 10.0 ** -e for i in range(3)] for p in pts]
+                cases.append(fit_case_of(rng, pts, tgt, 'cube-group', 'ideal', noise=10.0 ** -e))
     # (4) histories on the caller's own list objects: fit, change the numbers in place, fit again - every kind of
     #     change x (source list kept | built again) x (source rows are the fragment's rows | separate lists), then the
     #     target list / the selection / the qtrfit() arguments changed in place, and the plain repetitions
@@ -915,13 +990,18 @@ def run(ctx):
                 'fitted by 3..n of their atoms onto a rigidly moved (+ noisy) copy; rigid motions: rotation about the subset centroid + '
                 'translation, rotation about the subset centroid without net shift, about the origin, about an arbitrary point, pure '
                 'translation, identity; both streams: the whole problem scaled by 1 (half) or 1e-10..1e+6 (half), all deviations '
-                'judged relative to the rms radius of the (fitted) point set; seq: histories of 2..6 calls in one module state - identical '
-                'fragment + subset (the same list objects in 80 %) onto the same / other targets, other subset, other fragments and qtrfit() '
-                'calls in between; distinct by coordinates; '
+                'judged relative to the rms radius of the (fitted) point set; seq: histories of 2..8 calls in one module state on the caller\'s own '
+                'list objects (aliased rows 50 % / one object per list 30 % / copies 20 %): same call again, new target list, target list / '
+                'fragment coordinates / selection / qtrfit arguments changed in place, other subset, other fragments, qtrfit() calls; '
+                'systematic part first (polyhedra x cube group, unit ladder, angle and noise ladders, near-ideal targets, every in-place '
+                'change x list kept/rebuilt x aliased/pooled); distinct by coordinates; '
                 'non-trivial = rotation not one of the special ones or noise present (fit), fitted subset centroid away from the origin (frag)')
     ctx.assumptions = ['point sets are non-degenerate (not collinear; generated, not filtered)',
-                       'theorems are over exact real arithmetic; Jacobi convergence is not proved, its result is certified per case '
-                       '(eigen-residual, Sylvester pivots, sampled quaternions, sampled rotations)',
+                       'theorems are over exact real arithmetic; properness of the returned rotation, scale invariance and the Jacobi '
+                       'invariant are proved for all inputs; Jacobi CONVERGENCE (optimality of the returned quaternion) is not proved, '
+                       'it is certified per case (eigen-residual, Sylvester pivots, sampled quaternions, sampled rotations)',
+                       'histories: the caller passes lists of rows [x, y, z] that exist (theorem hypothesis `StepOk`); rows returned by '
+                       'an earlier fit and handed in again are exercised by the harness only',
                        'every proper rotation is R(u) for a unit quaternion u: hypothesis `hsurj` of optimal_among_proper_rotations']
     nfit = ctx.budget(250, 6000)
     nfrag = ctx.budget(250, 6000)
